@@ -37,6 +37,8 @@ def items(s, sep):
 
 def parse_out(line):
     """canonical line -> dict; None for CRASH / missing"""
+    if line == "SKIPPED":
+        return {"kind": "SKIPPED"}
     if line is None or line.startswith("CRASH"):
         return {"kind": "CRASH"}
     w = line.split(" ")
@@ -390,6 +392,40 @@ def build():
     finally:
         vv.BUILD = old
     return h, vv.ocaml_model("Csv")
+
+
+def run_resilient(exe, lines, max_restarts=40, timeout=1800):
+    """like prims_common.run_harness_resilient, but gives up after `max_restarts` sanitizer aborts in one batch: the
+    remaining lines are marked SKIPPED (a tree on which hundreds of cases crash is already reported through the first
+    ones; restarting the sanitised harness hundreds of times only costs minutes)"""
+    out = [None] * len(lines)
+    crashes = {}
+    start = 0
+    env = vv.san_env()
+    restarts = 0
+    while start < len(lines):
+        p = subprocess.run([exe], input="\n".join(lines[start:]) + "\n", env=env, timeout=timeout,
+                           stdout=subprocess.PIPE, stderr=subprocess.PIPE, text=True, errors="replace")
+        got = p.stdout.splitlines()
+        n = min(len(got), len(lines) - start)
+        for i in range(n):
+            out[start + i] = got[i]
+        if start + n >= len(lines) and p.returncode == 0:
+            break
+        if start + n >= len(lines):
+            crashes[len(lines) - 1] = p.stderr
+            out[len(lines) - 1] = "CRASH-AT-EXIT " + (out[len(lines) - 1] or "")
+            break
+        k = start + n
+        out[k] = "CRASH rc=%d" % p.returncode
+        crashes[k] = p.stderr
+        start = k + 1
+        restarts += 1
+        if restarts >= max_restarts:
+            for j in range(start, len(lines)):
+                out[j] = "SKIPPED"
+            break
+    return out, crashes
 
 
 def run_pair(harness, model, hlines, mlines=None):
